@@ -273,6 +273,14 @@ var statefulList = []statefulSpec{{
 	recv: "Keeper", pkg: "x/bet/keeper", name: "Settle", state: "bset", keeperPkg: "x/bet/keeper", ops: bsetOps, idParams: []string{"bettorAddressStr", "betUID"},
 	ctxOps: map[string]stateOp{"BlockHeight": {kind: "get", field: []string{"Height"}}},
 }, {
+	// x/orderbook/keeper/participation.go CalcWithdrawalAmount: what a house withdrawal may take (a read-only function: the amount or an error).
+	// State: the participations of the book and the exposures recorded for the participation asked about
+	recv: "Keeper", pkg: "x/orderbook/keeper", name: "CalcWithdrawalAmount", state: "obwd", keeperPkg: "x/orderbook/keeper", returns: "value",
+	idParams: []string{"depositorAddress"},
+	ops: map[string]stateOp{"GetOrderBookParticipation": {kind: "findk", field: []string{"Parts", "Index"}, args: []string{"marketUID"}},
+		"GetExposureByOrderBookAndParticipationIndex": {kind: "getok", field: []string{"PartExpos"}, args: []string{"marketUID", "participationIndex"}}},
+	fields: []stateField{{"Parts", "list G_OrderBookParticipation"}, {"PartExpos", "list G_ParticipationExposure"}},
+}, {
 	// x/subaccount/keeper/hooks.go: what the settlement of a participation books on the subaccount that made the deposit.  State: the
 	// account summary stored for the address and whether there is one, whether the owner record exists, the two bank balances
 	recv: "Hooks", pkg: "x/subaccount/keeper", name: "AfterHouseWin", state: "subhook", keeperPkg: "x/subaccount/keeper", ops: subhookOps, panics: true,
@@ -2074,6 +2082,19 @@ func (c *fctx) stmts(list []ast.Stmt) string {
 								errBranch := c.stmts(ifs.Body.List)
 								okBranch := c.stmts(list[2:])
 								return fmt.Sprintf("match %s with\n  | Some %s => %s\n  | None => %s\n  end", c.expr(s.Rhs[0]), ident(x.Name), okBranch, errBranch)
+							}
+						}
+					}
+					// x, err := f(); if err != nil || cond(x) { body }: the body for an error, and for a value satisfying cond
+					if or, ok := ifs.Cond.(*ast.BinaryExpr); ok && or.Op == token.LOR {
+						if be, ok := or.X.(*ast.BinaryExpr); ok && be.Op == token.NEQ && isNilIdent(be.Y) {
+							if id, ok := be.X.(*ast.Ident); ok && id.Name == "err" {
+								if x, ok := s.Lhs[0].(*ast.Ident); ok {
+									errBranch := c.stmts(ifs.Body.List)
+									okBranch := c.stmts(list[2:])
+									return fmt.Sprintf("match %s with\n  | Some %s => (if %s then %s else %s)\n  | None => %s\n  end",
+										c.expr(s.Rhs[0]), ident(x.Name), c.expr(or.Y), errBranch, okBranch, errBranch)
+								}
 							}
 						}
 					}
